@@ -1028,6 +1028,17 @@ func c20EstCorpus() []c20EstHistory {
 		{Name: "membership-changes", Epochs: []*big.Int{E(1), E(257), E(5), E(0)}, NConts: 1,
 			Ops: []c20EstOp{add(0), nm(), put(E(5), 0, 1, 0), nm(), put(E(5), 0, 2, 0), add(2), put(E(5), 0, 3, 2), nm(), put(E(5), 0, 4, 2), off(0), nm(), put(E(5), 0, 5, 2),
 				put(E(257), 0, 6, 0), nm(), put(E(257), 0, 7, 0), put(E(257), 0, 8, 2), nmBy(3), put(E(1), 0, 9, 2), nm()}},
+		// ticks of the real Netmap contract (container subscribed) that jump over
+		// several epochs: cleanup must be relative to the TICK's epoch
+		{Name: "netmap-jump-total-delta", Epochs: []*big.Int{E(1), E(2), E(3), E(0)}, NConts: 2,
+			Ops: []c20EstOp{add(0), add(1), nm(), nm(), put(E(2), 0, 1, 0), put(E(1), 0, 2, 1), put(E(3), 1, 3, 1), nmBy(d2), /* 6 */
+				nmBy(1) /* 7 */, nmBy(1) /* 8 */}},
+		{Name: "netmap-jump-over", Epochs: []*big.Int{E(2), E(7), E(10), E(0)}, NConts: 1,
+			Ops: []c20EstOp{add(0), add(1), nm(), nm(), put(E(2), 0, 1, 0), put(E(7), 0, 2, 1), nmBy(8) /* 10 */, put(E(10), 0, 3, 1), nmBy(d2 + 1) /* 15 */,
+				put(E(15), 0, 4, 0), nmBy(1000), put(E(10), 0, 5, 0)}},
+		{Name: "netmap-jump-steps", Epochs: []*big.Int{E(2), E(4), E(2 + d2), E(0), E(3 + 2*d2)}, NConts: 2,
+			Ops: []c20EstOp{add(0), add(1), nm(), nm(), put(E(2), 0, 1, 0), put(E(2), 1, 2, 1), nmBy(2) /* 4 */, put(E(4), 0, 3, 1), nmBy(d2 - 1) /* 3+d2 */,
+				put(E(2+d2), 1, 4, 0), nmBy(d2) /* 3+2*d2 */, put(E(3+2*d2), 0, 5, 0), nmBy(d2 + 1), nmBy(2), nmBy(d1)}},
 		{Name: "127-32639-and-256-65792", Epochs: []*big.Int{E(127), E(32639), E(256), E(65792)}, NConts: 2,
 			Ops: []c20EstOp{add(0), add(1), nm(), nm(), put(E(32639), 0, 1, 0), put(E(127), 0, 2, 1), put(E(65792), 1, 3, 1), put(E(256), 1, 4, 0), put(E(127), 0, 5, 0),
 				tick(E(127 + d2 + 1)), tick(E(256 + d2 + 1))}},
@@ -1049,7 +1060,24 @@ func c20EstRandom(r *rand.Rand, i int) c20EstHistory {
 			hs.Ops = append(hs.Ops, c20EstOp{Kind: "addpeer", Pub: n})
 		}
 	}
-	nm := func() { hs.Ops = append(hs.Ops, c20EstOp{Kind: "nmtick", Step: 1}) }
+	cur := int64(0) // the Netmap contract's epoch
+	nmBy := func(s int64) { cur += s; hs.Ops = append(hs.Ops, c20EstOp{Kind: "nmtick", Step: s}) }
+	nm := func() { nmBy(1) }
+	// a Netmap tick may jump over epochs: 1, 2, around the cleanup deltas, large
+	nmJump := func() {
+		steps := []int64{1, 1, 2, d1, d2 - 1, d2, d2 + 1, d2 + 2, 10, 1000}
+		st := steps[r.Intn(len(steps))]
+		if st < 1 {
+			st = 1
+		}
+		nmBy(st)
+	}
+	extra := func(e *big.Int) *big.Int { // observe the epochs used near the Netmap epoch too
+		if !c20HasEpoch(hs.Epochs, e) && len(hs.Epochs) < 7 {
+			hs.Epochs = append(hs.Epochs, e)
+		}
+		return e
+	}
 	add(0)
 	if r.Intn(2) == 0 {
 		add(1)
@@ -1059,6 +1087,7 @@ func c20EstRandom(r *rand.Rand, i int) c20EstHistory {
 		add(1)
 	}
 	nm()
+	jumpy := r.Intn(2) == 0 // half of the histories live around the Netmap epoch
 	deleted := map[int]bool{}
 	var lastE *big.Int
 	n := 8 + r.Intn(6)
@@ -1072,6 +1101,9 @@ func c20EstRandom(r *rand.Rand, i int) c20EstHistory {
 			op := c20EstOp{Kind: "put", E: hs.Epochs[r.Intn(len(hs.Epochs))], Cid: r.Intn(ncid), Pub: node, Signers: []int{node}}
 			if lastE != nil && r.Intn(4) == 0 { // near the previous put: the node's own cleanup window
 				op.E = new(big.Int).Add(lastE, big.NewInt([]int64{d1, d1 + 1, 1, -1}[r.Intn(4)]))
+			}
+			if jumpy && r.Intn(3) != 0 { // the current / previous Netmap epoch, as storage nodes report
+				op.E = extra(big.NewInt(cur + []int64{0, 0, -1, 1, -d1}[r.Intn(5)]))
 			}
 			switch r.Intn(8) {
 			case 0:
@@ -1102,7 +1134,11 @@ func c20EstRandom(r *rand.Rand, i int) c20EstHistory {
 			}
 			hs.Ops = append(hs.Ops, c20EstOp{Kind: "tick", Alpha: r.Intn(5) != 0, N: nn})
 		case x < 17:
-			nm()
+			if jumpy {
+				nmJump()
+			} else {
+				nm()
+			}
 		case x < 18:
 			add(1 + r.Intn(2))
 		case x < 19:
@@ -1115,6 +1151,8 @@ func c20EstRandom(r *rand.Rand, i int) c20EstHistory {
 			if added[0] && r.Intn(2) == 0 {
 				added[0] = false
 				hs.Ops = append(hs.Ops, c20EstOp{Kind: "offline", Pub: 0})
+			} else if jumpy {
+				nmJump()
 			} else {
 				nm()
 			}
